@@ -209,11 +209,24 @@ def const_key(e):
     return None
 
 
+def peel_bytes(e):
+    """look through conversions that preserve a byte string's content
+    (to_vec / to_owned / into / from / clone / as_ref / as_slice / x[..])"""
+    from kernel import unmut
+    e = unmut(e)
+    for _ in range(8):
+        if e.k == "call" and len(e.a[1]) == 1 and e.a[0].name in ("to_vec", "to_owned", "into", "from", "clone", "into_vec", "into_boxed_slice") and e.a[0].krate in ("core", "alloc", "std"):
+            e = unmut(e.a[1][0])
+            continue
+        break
+    return e
+
+
 def value_class_of_expr(callee_targ, vexpr):
     """class of what `insert::<T>(key, &v)` / `add_value::<T>` stores, refined
     by the value expression when T is a plain byte slice"""
     cls = rlpclass.class_of_type(callee_targ)
-    v = strip(vexpr)
+    v = peel_bytes(vexpr)
     if cls == ("BYTES", None):
         if v.k == "call" and v.a[0].name == "octets":
             if "Ipv4Addr" in v.a[0].fn:
